@@ -540,6 +540,7 @@ type Contract struct {
 	Hints     []*Clause // proved at exit before the postconditions, then assumed
 	Applies   []*Clause // lemma instances over the entry state, assumed at entry (justified by the lemma's own proof)
 	FreshRes  bool
+	Fresh     []QVar // skolem witnesses: fresh constants per call (callee side: ghost results chosen existentially are not supported; only for extern/trusted)
 }
 
 type GhostStmt struct {
@@ -565,6 +566,12 @@ type Lemma struct {
 	Props   []string
 }
 
+type UFunc struct {
+	Name   string
+	Params []QVar
+	Result string
+}
+
 type GhostField struct {
 	Struct, Name, Type string
 }
@@ -576,17 +583,18 @@ type SpecFile struct {
 	Preds     map[string]*Pred
 	Lemmas    []*Lemma
 	Ghosts    []*GhostField
+	UFuncs    map[string]*UFunc
 }
 
 func NewSpecFile(pkg string) *SpecFile {
-	return &SpecFile{PkgPath: pkg, Contracts: map[string]*Contract{}, Preds: map[string]*Pred{}}
+	return &SpecFile{PkgPath: pkg, Contracts: map[string]*Contract{}, Preds: map[string]*Pred{}, UFuncs: map[string]*UFunc{}}
 }
 
 var clauseKeywords = map[string]bool{
 	"func": true, "extern": true, "requires": true, "ensures": true, "modifies": true, "loop": true,
 	"invariant": true, "decreases": true, "pred": true, "props": true, "arith": true, "pure": true,
 	"trusted": true, "panics_if": true, "opt": true, "ghost": true, "lemma": true, "nosafety": true,
-	"results": true, "assume": true, "end": true, "uses": true, "hint": true, "apply": true,
+	"results": true, "assume": true, "end": true, "uses": true, "hint": true, "apply": true, "ufunc": true, "fresh": true,
 }
 
 // ParseSpecText parses the //@ lines of one file into sf.
@@ -714,6 +722,25 @@ func (sf *SpecFile) ParseSpecText(file, text string) error {
 			}
 			pr.Body = e
 			sf.Preds[pr.Name] = pr
+		case "ufunc":
+			// ufunc name(a T, b U) R
+			op := strings.Index(rc.rest, "(")
+			cl := strings.LastIndex(rc.rest, ")")
+			if op < 0 || cl < op {
+				return fmt.Errorf("%s:%d: bad ufunc", file, rc.line)
+			}
+			uf := &UFunc{Name: strings.TrimSpace(rc.rest[:op]), Result: strings.TrimSpace(rc.rest[cl+1:])}
+			ps := strings.TrimSpace(rc.rest[op+1 : cl])
+			if ps != "" {
+				for _, a := range strings.Split(ps, ",") {
+					f := strings.Fields(a)
+					if len(f) != 2 {
+						return fmt.Errorf("%s:%d: bad ufunc parameter %q", file, rc.line, a)
+					}
+					uf.Params = append(uf.Params, QVar{f[0], f[1]})
+				}
+			}
+			sf.UFuncs[uf.Name] = uf
 		case "lemma":
 			// lemma name [assumed] : forall ... :: body
 			k := strings.Index(rc.rest, ":")
@@ -766,6 +793,12 @@ func (sf *SpecFile) ParseSpecText(file, text string) error {
 				return fmt.Errorf("%s:%d: clause %q outside a func block", file, rc.line, rc.kw)
 			}
 			switch rc.kw {
+			case "fresh":
+				f := strings.Fields(rc.rest)
+				if len(f) != 2 {
+					return fmt.Errorf("%s:%d: fresh <name> <type>", file, rc.line)
+				}
+				cur.Fresh = append(cur.Fresh, QVar{f[0], f[1]})
 			case "props":
 				cur.Props = append(cur.Props, strings.Fields(strings.ReplaceAll(rc.rest, ",", " "))...)
 			case "uses":
